@@ -180,10 +180,28 @@ reg("C02", ["c02_blockwrite.c"],
          "object, as are area storage, area[] and entry[] incl. sentinels. A signature is a table; evaluations counts "
          "block writes judged.")
 
+reg("C03", ["c03_blockread.c"],
+    rule="units = " + RT_FAMILY + " (400 tables quick, 6000 thorough). Per table (storage filled out of band with "
+         "distinct words): the uninitialised table is probed first; then every address from two words below the "
+         "lowest base to two above the highest end x every length 0..span+3: one block read into an exact-size "
+         "poisoned-arena buffer, one iteration with an always-continue callback and, for each of the first four "
+         "callback positions k, iterations stopped at call k by a positive and by a negative result; finally the "
+         "whole-table idioms foreach(0, ADDRESS_MAX). A signature is a table; evaluations counts reads and "
+         "iterations judged.",
+    assumptions=["ranges that wrap past 2^32 are not generated (semantics unstated)"])
+
 SAN_NOTE = ("Trusted: gcc 12 ASan/UBSan runtime, the harness' reference model, the fork-per-unit runner. "
             "Assumes little-endian x86-64; decides only the executions listed in the evidence file.")
 
 MANIFEST_TEXT = {
+    "C03": dict(
+        technique="runtime monitoring: window enumeration over generated tables against a flat address-space model; scripted iteration callbacks recording the handle sequence; exact-size poisoned read buffers under ASan/UBSan",
+        text="Every window position including starts in holes, in gaps between registers, in the middle of multi-word "
+             "registers and at area edges is read and iterated; the model predicts success/first unmapped address, "
+             "the words returned (zero for non-readable areas) and the exact ascending sequence of registers handed "
+             "to the callback, truncated at the first non-zero result. The read buffer has exactly n words with "
+             "poison on both sides.",
+        note=SAN_NOTE),
     "C02": dict(
         technique="runtime monitoring: window x pattern enumeration over generated tables against a flat address-space model (applicable-failure set + exact post-image), touched-mark and whole-image comparison after every call, poisoned exact-size buffers under ASan/UBSan",
         text="For every generated table every (address, length) window is written with patterns aimed at each "
